@@ -28,3 +28,13 @@ def toks_extended(a: V, b: V) -> bool:
     """the token list of a is that of b plus one token at the end"""
     return (len(a.tokens) == len(b.tokens) + 1
             and all(seq(a.tokens)[j] == seq(b.tokens)[j] for j in range(len(b.tokens))))
+
+
+def lex_stacks_ok(l: V) -> bool:
+    """shape of the bookkeeping the state functions keep next to the cursor: a filter nesting count, a stack of parenthesis
+    counts (one per open function call) and a stack of (opening bracket, offset) pairs, each offset a position of a
+    character of the query"""
+    return (is_int(l.filter_depth) and is_arr(l.func_call_stack) and all(is_int(n) for n in seq(l.func_call_stack))
+            and is_arr(l.bracket_stack)
+            and all(is_tuple(e) and len(e) == 2 and is_str(seq(e)[0]) and is_int(seq(e)[1])
+                    and 0 <= int_of(seq(e)[1]) and int_of(seq(e)[1]) < len(l.query) for e in seq(l.bracket_stack)))
